@@ -36,8 +36,23 @@ def run(chk, program, tier):
     init = program.fn('encoder', 'NMEA2000Encoder.__init__')
     # initial counter: instance state set in __init__
     ini = [n for n in ast.walk(init) if isinstance(n, ast.Assign) and any(isinstance(t, ast.Attribute) and t.attr == 'sequence_counter' for t in n.targets)]
-    chk.check(len(ini) == 1 and isinstance(ini[0].value, ast.Constant) and ini[0].value.value in range(8), 'FP-SEQ', '__init__::counter-initialised', file=ENC,
-              line=init.lineno, func='__init__', expected='self.sequence_counter = <0..7> in __init__ (instance state)', found=ast.unparse(ini[0]) if ini else 'absent')
+    # decided on the interpreted constructor: whatever the spelling, a new encoder object carries sequence_counter in 0..7
+    from .. import absint as A_
+    v0 = 'not interpretable'
+    try:
+        o_ = A_.AObj()
+        ecls = program.cls('encoder', 'NMEA2000Encoder')
+        A_.Interp(methods={n.name: n for n in ecls.body if isinstance(n, ast.FunctionDef)}, module=A_.ModuleEnv(program.mod('encoder').tree)).call_function(init, [o_])
+        v0 = o_.attrs.get('sequence_counter', 'absent')
+    except (A_.Unknown, A_.RaiseSignal, AttributeError, TypeError, KeyError):
+        pass
+    if isinstance(v0, A_.AInt) and v0.v is not None:
+        chk.check(v0.v in range(8), 'FP-SEQ', '__init__::counter-initialised', file=ENC, line=init.lineno, func='__init__', expected='a new encoder has sequence_counter in 0..7 (instance state)', found=v0.v)
+    elif not ini:
+        chk.unknown('FP-SEQ', '__init__::counter-initialised', f"the constructor leaves no plain attribute sequence_counter ({v0 if isinstance(v0, str) else type(v0).__name__}): where the counter lives was not followed", ENC, init.lineno)
+    else:
+        chk.check(len(ini) == 1 and isinstance(ini[0].value, ast.Constant) and ini[0].value.value in range(8), 'FP-SEQ', '__init__::counter-initialised', file=ENC,
+                  line=init.lineno, func='__init__', expected='self.sequence_counter = <0..7> in __init__ (instance state)', found=ast.unparse(ini[0]) if ini else 'absent')
     runs = segmenter_sweep(chk, program, range(0, 224), range(8))
     chk.unit('abstract_runs', runs)
     chk.floor('abstract_runs', runs, 1792)
